@@ -355,15 +355,33 @@ def rules(ctx):
                 ctx.inst('M2', (f.unit, f.name), 'free(%s)' % fr['arg'], False,
                          "%s frees memory it did not allocate (parameter `%s`): the owner frees it again" % (f.name, b))
         for v, als in top.items():
-            frees = [x for x in f.frees if x['arg'] == v]
+            allfrees = [x for x in f.frees if x['arg'] == v]
+
+            def on_exit_path(fr):
+                # a free inside a conditional block that ends the function (error exit): `if(failed) { free(..); return ..; }`
+                gs = [nsp(g) for g in fr['guards']]
+                return bool(gs) and not fr['loops'] and any(
+                    [nsp(g) for g in r['guards']] == gs and r['line'] >= fr['line'] for r in f.returns)
+            exits = [x for x in allfrees if on_exit_path(x)]
+            frees = [x for x in allfrees if not on_exit_path(x)]
             ok = len(frees) == 1 and not frees[0]['loops'] and not frees[0]['guards']
-            msg = "freed exactly once, unconditionally, at the exit"
+            msg = "freed exactly once, unconditionally, at the exit" + (
+                " (and once on each of %d early error exits)" % len({tuple(nsp(g) for g in x['guards']) for x in exits}) if exits else '')
             if not frees:
                 msg = "`%s` is allocated but never freed: every call leaks it" % v
             elif len(frees) > 1:
                 msg = "`%s` is freed %d times (double free)" % (v, len(frees))
             elif not ok:
                 msg = "`%s` is freed inside a loop / under a condition" % v
+            if ok and exits:
+                ctxs = [tuple(nsp(g) for g in x['guards']) for x in exits]
+                first_alloc = min(a_['line'] for a_ in als)
+                if len(set(ctxs)) != len(ctxs):
+                    ok, msg = False, "`%s` is freed twice on one error exit" % v
+                elif any(x['line'] < first_alloc for x in exits):
+                    ok, msg = False, "`%s` is freed on an error exit before it was allocated (wild pointer)" % v
+                elif any(x['line'] > frees[0]['line'] for x in exits):
+                    ok, msg = False, "`%s` is freed on an error exit after the regular free (double free)" % v
             if ok:
                 fl = frees[0]['line']
                 later = [s_ for s_ in f.subs if re.sub(r'\[.*', '', s_['base']) == v and s_['line'] > fl] + \
